@@ -5,19 +5,21 @@ from typing import Dict, List, Optional
 
 
 class LoopSpec:
-    def __init__(self, invariant=(), variant=None, index=None, types=None, modifies=(), unroll=None):
+    def __init__(self, invariant=(), variant=None, index=None, types=None, modifies=(), unroll=None, ghost_pre=()):
         self.invariant: List[str] = list(invariant)
         self.variant: Optional[str] = variant
         self.index: Optional[str] = index          # ghost name of the hidden iteration counter of a for loop
         self.types: Dict[str, str] = dict(types or {})
         self.modifies: List[str] = list(modifies)
         self.unroll: Optional[int] = unroll
+        self.ghost_pre: List[str] = list(ghost_pre)     # ghost statements executed at the start of each iteration
 
 
 class Contract:
     def __init__(self, key, params=None, returns=None, requires=(), ensures=(), modifies=(), raises=None,
                  may_raise=(), loops=None, allocates=False, virtual=False, trusted=None, locals=None,
-                 ensures_raise=None, note=None, self_cls=None, yields=None, pure=False):
+                 ensures_raise=None, note=None, self_cls=None, yields=None, pure=False, ghost_init=(), ghost_after=None,
+                 ghost_before=None, internal_ensures=(), assumed_ensures=()):
         self.key = key                      # 'module.func' or 'Class.method'
         self.params: Dict[str, str] = dict(params or {})
         self.returns: Optional[str] = returns
@@ -36,6 +38,11 @@ class Contract:
         self.note = note
         self.self_cls = self_cls
         self.pure = pure
+        self.ghost_init: List[str] = list(ghost_init)              # ghost statements at function entry
+        self.ghost_after: Dict[str, List[str]] = dict(ghost_after or {})    # statement text -> ghost statements
+        self.ghost_before: Dict[str, List[str]] = dict(ghost_before or {})
+        self.internal_ensures: List[str] = list(internal_ensures)  # checked for the body only (may use ghost locals)
+        self.assumed_ensures: List[str] = list(assumed_ensures)    # coupling facts assumed at call sites only (trusted)
 
 
 class Registry:
@@ -48,6 +55,7 @@ class Registry:
         self.opaque_names: set = set()          # module-level names dropped by extraction (log, DEFAULT_PRINTER)
         self.inline_deny: set = set()
         self.targets: List[str] = []            # qualnames to verify
+        self.side_checks = []                   # callables(repo) -> list of error strings (mechanical premises)
 
     def contract(self, key, **kw) -> Contract:
         c = Contract(key, **kw)
@@ -79,4 +87,5 @@ class Registry:
             r.axioms.extend(a for a in src.axioms if a not in r.axioms)
             r.opaque_names |= src.opaque_names
             r.inline_deny |= src.inline_deny
+            r.side_checks.extend(c for c in src.side_checks if c not in r.side_checks)
         return r
